@@ -146,8 +146,19 @@ def processLine (ds : DState) (line : String) : DState × List String :=
     match str j "k" with
     | "cfg" =>
       let init := sortMsgs ((arr j "init").map msgOfJson)
-      ({ ds with cfg := cfgOfJson (obj j "cfg"), q := { msgs := init }, prev := init, hist := {}, sched := [],
-                 trace := nat j "trace", stepNo := 0 }, [])
+      -- a store built from configuration text: every limit / retention value the text states must be the value in force
+      let c := cfgOfJson (obj j "cfg")
+      let wiring : List String :=
+        if !(has j "compiled") || (obj j "compiled").isNull then [] else
+        let k := cfgOfJson (obj j "compiled")
+        let bad := (if k.maxDepth != c.maxDepth then ["max_depth"] else []) ++ (if k.dropOldest != c.dropOldest then ["drop_policy"] else []) ++
+          (if k.retention != c.retention then ["queue_retention.max_age"] else []) ++ (if k.pruneInterval != c.pruneInterval then ["prune_interval"] else []) ++
+          (if k.deliveredRet != c.deliveredRet then ["delivered_retention.max_age"] else []) ++ (if k.dlqRet != c.dlqRet then ["dlq_retention.max_age"] else []) ++
+          (if k.dlqDepth != c.dlqDepth then ["dlq_retention.max_depth"] else [])
+        if bad.isEmpty then [] else
+          ["C02", "C12"].map (fun p => s!"PROP {p} trace={nat j "trace"} step=0 configured-value-not-in-force {bad} stated={repr c} compiled={repr k}")
+      ({ ds with cfg := c, q := { msgs := init }, prev := init, hist := {}, sched := [],
+                 trace := nat j "trace", stepNo := 0, propFails := ds.propFails + wiring.length }, wiring)
     | "step" =>
       let n := ds.stepNo
       let tag := s!"trace={ds.trace} step={n}"
